@@ -425,6 +425,22 @@ func c09Rebuild(p *chk.Prog, r *chk.Report) {
 			w2 := g.MustPass(del[0], nil, true, bd.ContainsPat("RECV.updateAds()"))
 			okk = !w2.Found
 		}
+		if !okk && len(del) == 1 {
+			// decided again with the values set on the way (the removal inside an expanded helper that answers whether there
+			// was anything to remove): a return that does not republish is reached only with the service unknown, and
+			// never with the deletion behind it
+			isUpd := bd.ContainsPat("RECV.updateAds()")
+			isDel := func(n ast.Node) bool { return n == del[0].Top }
+			okk = len(g.Returns()) > 0
+			for _, rt := range g.Returns() {
+				if isUpd(rt.Node) {
+					continue
+				}
+				if !g.Dominated(rt, chk.GBool(false, present)) || !g.Dominated(rt, chk.GOr(chk.GNot(chk.GEvent(isDel)), chk.GEvent(isUpd))) {
+					okk = false
+				}
+			}
+		}
 		y.Check("bgp.DeleteBalancer:delete-and-republish", bd.Pos(), okk, "", "a withdrawn service's advertisements are not removed and republished")
 	}
 	ld := need(y, p, "speaker", "layer2Controller", "DeleteBalancer")
